@@ -2,11 +2,15 @@
 // are symbolic; values are raw 64-bit patterns that are only moved.
 #include <kernel/base_header.hpp>
 #include <kernel/lafem/sparse_matrix_csr.hpp>
+#include <kernel/lafem/sparse_matrix_cscr.hpp>
+#include <kernel/lafem/sparse_matrix_banded.hpp>
 #include <kernel/adjacency/permutation.hpp>
+#include <kernel/adjacency/graph.hpp>
 #include <cstring>
 using namespace FEAT;
 typedef unsigned long ul;
 #define W extern "C" __attribute__((noinline))
+extern "C" ul verif_choose(ul v);   // executor: fork over the feasible values; identity in the native build
 typedef LAFEM::SparseMatrixCSR<double, Index> CSR;
 
 static void fill(CSR& a, ul rows, ul used, const ul* vals, const ul* rowptr, const ul* colind)
@@ -17,14 +21,16 @@ static void fill(CSR& a, ul rows, ul used, const ul* vals, const ul* rowptr, con
 // out: [rows][cols][used][row_ptr (rows+1)][col_ind (used)][val bits (used)]
 static void dump(const CSR& t, ul* out)
 {
-  *out++ = t.rows(); *out++ = t.columns(); *out++ = t.used_elements();
+  const Index tu = Index(verif_choose(t.used_elements()));
+  *out++ = t.rows(); *out++ = t.columns(); *out++ = tu;
   if(t.row_ptr() == nullptr) return;
   for(Index i = 0; i <= t.rows(); ++i) *out++ = t.row_ptr()[i];
-  for(Index k = 0; k < t.used_elements(); ++k) *out++ = t.col_ind()[k];
-  for(Index k = 0; k < t.used_elements(); ++k) { ul b; std::memcpy(&b, t.val() + k, 8); *out++ = b; }
+  for(Index k = 0; k < tu; ++k) *out++ = t.col_ind()[k];
+  for(Index k = 0; k < tu; ++k) { ul b; std::memcpy(&b, t.val() + k, 8); *out++ = b; }
 }
 
 // op 0: t.transpose(a)   op 1: t = a.transpose()   op 2: t = a.clone(Deep)   op 3: t = a.clone(Shallow) after which a is destroyed
+// op 4: CSR -> CSCR -> CSR   op 5: CSR -> Banded -> CSR (pattern may grow by explicit zeros)   op 6: layout rebuilt from Graph(as_is, a), values copied
 W long w_struct(int op, ul rows, ul cols, ul used, const ul* vals, const ul* rowptr, const ul* colind, ul* out)
 {
   CSR t;
@@ -37,7 +43,10 @@ W long w_struct(int op, ul rows, ul cols, ul used, const ul* vals, const ul* row
     case 0: t.transpose(a); break;
     case 1: t = a.transpose(); break;
     case 2: t = a.clone(LAFEM::CloneMode::Deep); break;
-    default: t = a.clone(LAFEM::CloneMode::Shallow); break;
+    case 3: t = a.clone(LAFEM::CloneMode::Shallow); break;
+    case 4: { LAFEM::SparseMatrixCSCR<double, Index> c; c.convert(a); t.convert(c); break; }
+    case 5: { LAFEM::SparseMatrixBanded<double, Index> b; b.convert(a); t.convert(b); break; }
+    default: { Adjacency::Graph g(Adjacency::RenderType::as_is, a); CSR u(g); for(Index k = 0; k < u.used_elements(); ++k) u.val()[k] = a.val()[k]; t = std::move(u); break; }
     }
   }
   dump(t, out);
